@@ -45,8 +45,8 @@ def run(ck):
         for k in range(0, len(cases), B):
             batches.append({"id": len(batches), "kind": kind, "batch": cases[k:k + B], "seed": ck.seed * 1000003 + len(batches)})
     for i in range(12):
-        batches.append({"id": len(batches), "kind": "fuzzvalue", "n": 40000 if quick else 400000, "seed": ck.seed * 7919 + i})
-        batches.append({"id": len(batches), "kind": "fuzztext", "n": 80000 if quick else 800000, "seed": ck.seed * 104729 + i})
+        batches.append({"id": len(batches), "kind": "fuzzvalue", "n": 40000 if quick else 3000000, "seed": ck.seed * 7919 + i})
+        batches.append({"id": len(batches), "kind": "fuzztext", "n": 80000 if quick else 5000000, "seed": ck.seed * 104729 + i})
     for depth in (100, 2000, 10000, 10001) + (() if quick else (100000, 3000000)):
         batches.append({"id": len(batches), "kind": "deep", "n": depth, "seed": 1})
     res = vlib.run_cases(ck, "json", batches, nproc=14, timeout=3000)
